@@ -26,7 +26,9 @@ Theorem C20_tag_grammar :
 Proof. exact tag_grammar. Qed.
 Print Assumptions C20_tag_grammar.
 
-(* Repository.ParseReference: the five accepted forms give the same reference *)
+(* Repository.ParseReference: the six accepted forms give the same reference: tag, B:tag, digest,
+   B@digest, <dropped>@digest (the dropped part is anything without '/' and '@') and
+   B:<dropped>@digest (anything without '@') *)
 Theorem C20_repo_forms_agree :
   forall (valid_registry : str -> bool) breg brepo,
     ok_registry valid_registry breg -> valid_repository brepo = true ->
@@ -38,16 +40,12 @@ Theorem C20_repo_forms_agree :
        repo_parse valid_registry breg brepo d = Some (mkRef breg brepo d) /\
        repo_parse valid_registry breg brepo (breg ++ [c_slash] ++ brepo ++ [c_at] ++ d)
          = Some (mkRef breg brepo d) /\
-       forall junk, contains c_slash junk = false -> contains c_at junk = false ->
-         repo_parse valid_registry breg brepo (junk ++ [c_at] ++ d) = Some (mkRef breg brepo d)).
-Proof.
-  intros vr breg brepo Hr Hp. split.
-  - intros t Ht. split; [exact (repo_parse_tag vr breg brepo t Ht)
-                        | exact (repo_parse_full_tag vr breg brepo Hr Hp t Ht)].
-  - intros d Hd. split; [exact (repo_parse_digest vr breg brepo d Hd)|].
-    split; [exact (repo_parse_full_digest vr breg brepo Hr Hp d Hd)|].
-    intros junk Hs Ha. exact (repo_parse_tag_at_digest vr breg brepo junk d Hs Ha Hd).
-Qed.
+       (forall junk, contains c_slash junk = false -> contains c_at junk = false ->
+         repo_parse valid_registry breg brepo (junk ++ [c_at] ++ d) = Some (mkRef breg brepo d)) /\
+       (forall junk, contains c_at junk = false ->
+         repo_parse valid_registry breg brepo (breg ++ [c_slash] ++ brepo ++ [c_colon] ++ junk ++ [c_at] ++ d)
+         = Some (mkRef breg brepo d))).
+Proof. exact repo_forms_agree. Qed.
 Print Assumptions C20_repo_forms_agree.
 
 (* other registries / repositories and empty references are rejected; whatever is
@@ -59,6 +57,30 @@ Theorem C20_repo_rejects_foreign :
     repo_parse valid_registry breg brepo s = None.
 Proof. exact repo_parse_other_rejected. Qed.
 Print Assumptions C20_repo_rejects_foreign.
+
+(* "rejects other registries or repositories", full strength: a string with a path in it (a '/')
+   is accepted ONLY if it is a valid fully qualified reference of the base repository itself, i.e.
+   <base registry>/<base repository> followed by ':' or '@'.  Foreign references are rejected
+   whether or not they are themselves well formed (a malformed path in front of a valid digest
+   used to be re-targeted to the base: C20_repo_rejects_other_paths_prefix_refuted). *)
+Theorem C20_repo_rejects_other_paths :
+  forall (valid_registry : str -> bool) breg brepo s r,
+    repo_parse valid_registry breg brepo s = Some r -> contains c_slash s = true ->
+    (parse valid_registry s = Some r /\ r_registry r = breg /\ r_repository r = brepo) /\
+    exists c t, s = breg ++ [c_slash] ++ brepo ++ c :: t /\ (c = c_colon \/ c = c_at).
+Proof.
+  exact (fun vr breg brepo s r H Hs =>
+           conj (repo_parse_path_is_base vr breg brepo s r H Hs) (repo_parse_path_prefix vr breg brepo s r H Hs)).
+Qed.
+Print Assumptions C20_repo_rejects_other_paths.
+
+(* the code before the fix (model repo_parse_prefix) violated it *)
+Theorem C20_repo_rejects_other_paths_prefix_refuted :
+  exists vr breg brepo s r,
+    ok_registry vr breg /\ valid_repository brepo = true /\
+    repo_parse_prefix vr breg brepo s = Some r /\ contains c_slash s = true /\ parse vr s = None.
+Proof. exact repo_parse_prefix_retargets. Qed.
+Print Assumptions C20_repo_rejects_other_paths_prefix_refuted.
 
 Theorem C20_repo_result_in_base :
   forall (valid_registry : str -> bool) breg brepo s r,
@@ -108,9 +130,12 @@ Theorem C20_op_requests_forms_agree :
     (forall d, valid_digest d = true ->
        op_requests valid_registry op plain breg brepo (breg ++ [c_slash] ++ brepo ++ [c_at] ++ d) d0
        = op_requests valid_registry op plain breg brepo d d0 /\
-       forall junk, contains c_slash junk = false -> contains c_at junk = false ->
+       (forall junk, contains c_slash junk = false -> contains c_at junk = false ->
          op_requests valid_registry op plain breg brepo (junk ++ [c_at] ++ d) d0
-         = op_requests valid_registry op plain breg brepo d d0).
+         = op_requests valid_registry op plain breg brepo d d0) /\
+       (forall junk, contains c_at junk = false ->
+         op_requests valid_registry op plain breg brepo (breg ++ [c_slash] ++ brepo ++ [c_colon] ++ junk ++ [c_at] ++ d) d0
+         = op_requests valid_registry op plain breg brepo d d0)).
 Proof. exact op_requests_forms_agree. Qed.
 Print Assumptions C20_op_requests_forms_agree.
 
